@@ -61,6 +61,9 @@ def _terminates(block: list[ast.stmt]) -> bool:
         return bool(last.orelse) and _terminates(last.body) and _terminates(last.orelse)
     if isinstance(last, ast.With):
         return _terminates(last.body)
+    if isinstance(last, ast.Match):
+        wild = any(isinstance(c.pattern, ast.MatchAs) and (c.pattern.pattern is None or (isinstance(c.pattern.pattern, ast.MatchAs) and c.pattern.pattern.pattern is None)) and c.guard is None for c in last.cases)
+        return wild and all(_terminates(c.body) for c in last.cases)
     return False
 
 
@@ -266,6 +269,19 @@ class Inliner:
                     if not new.body:
                         new.body = [ast.Pass()]
                     return out + [new]
+                if isinstance(s, ast.Match):
+                    wild = any(isinstance(c.pattern, ast.MatchAs) and (c.pattern.pattern is None or (isinstance(c.pattern.pattern, ast.MatchAs) and c.pattern.pattern.pattern is None)) and c.guard is None for c in s.cases)
+                    if all(_terminates(c.body) for c in s.cases) and (wild or not rest):
+                        new = copy.copy(s)
+                        new.cases = []
+                        for c in s.cases:
+                            nc = copy.copy(c)
+                            nc.body = conv(c.body) or [ast.Pass()]
+                            new.cases.append(nc)
+                        if not wild:
+                            return out + [new] + sink(None)
+                        return out + [new]
+                    raise NotInlinable
                 if isinstance(s, ast.Try) and not s.finalbody and not _block_contains(s.body, ast.Return) and not _block_contains(s.orelse, ast.Return) \
                         and s.handlers and all(_terminates(h.body) for h in s.handlers):
                     # every handler leaves the function: what follows the try runs only after a clean body -> it moves into `else`
